@@ -152,24 +152,48 @@ def build_ops(n, edges, style, node_order=None):
     raise ValueError(style)
 
 
+_FACTOR = {"us": 1, "ms": 1000, "s": 1000000}
+
+
+def _timed(rng, pool, lo, hi, mixed):
+    """[[n, microseconds]] plus [[n, unit]] for the labels whose time is GIVEN in ms / s
+    (then the microsecond value is a whole multiple of the unit)."""
+    us, units = [], []
+    for n in pool:
+        u = rng.choice(["us", "us", "us", "ms", "ms", "s"]) if mixed else "us"
+        us.append([n, rng.randint(lo, hi) * _FACTOR[u]])
+        if u != "us":
+            units.append([n, u])
+    return us, units
+
+
 def decorate(rng, case, labels, jobcost=True):
-    """Give task / job kinds their runtimes (and the job-level cost queries)."""
+    """Give task / job kinds their runtimes (and the job-level cost queries).  Half of the
+    cases give runtimes (and SLOs) in mixed units (us / ms / s); all tables exchanged with the
+    model and the oracle are in microseconds."""
     kind = case["kind"]
     labels = list(labels)
+    mixed = rng.random() < 0.5
     if kind == "task":
         q = [op for op in case["ops"] if op["op"] == "query"]
         pool = sorted({n for op in q for n in op["ns"]} | set(labels))
-        rt = [[n, rng.randint(1, 4)] for n in pool]
+        rt, units = _timed(rng, pool, 1, 4, mixed)
         case["rt"] = rt
+        if units:
+            case["unit"] = units
         for op in q:
             op["ws"] = [[[n, r] for n, r in rt]] + op["ws"][1:]
     elif kind == "job":
         pool = sorted(set(labels) | {n for op in case["ops"] if op["op"] == "query" for n in op["ns"]})
         mode = rng.choice(["plain", "plain", "slo", "dead", "both"])
-        rt = [[n, rng.randint(1, 4)] for n in pool]
+        rt, units = _timed(rng, pool, 1, 4, mixed)
         live = [n for n in pool if mode in ("plain", "slo") or rng.random() < 0.7]
-        slo = [[n, rng.randint(1, 9)] for n in pool if mode in ("slo", "both") and rng.random() < 0.5]
+        slo, slo_units = _timed(rng, [n for n in pool if mode in ("slo", "both") and rng.random() < 0.5], 1, 9, mixed)
         case["rt"], case["live"], case["slo"] = rt, live, slo
+        if units:
+            case["unit"] = units
+        if slo_units:
+            case["slo_unit"] = slo_units
         if jobcost and labels:
             slo_d = dict(map(tuple, slo))
             cost = [[n, slo_d.get(n, r)] for n, r in rt]
@@ -276,6 +300,19 @@ def mutation_case(rng, kind, max_label=6, steps=10):
             ops.append({"op": "add_child", "n": u, "c": v})
             if u in present:
                 present.add(v)
+        elif r < 0.75 and present:
+            keys = sorted(present)
+            rng.shuffle(keys)
+            keys = keys[: rng.randint(1, len(keys))]
+            m = []
+            for u in keys:
+                cs = [c for c in range(max_label) if c > u and rng.random() < 0.35]
+                if rng.random() < 0.15:
+                    cs.append(rng.randrange(max_label))  # possibly a back edge / self loop
+                rng.shuffle(cs)
+                m.append([u, cs])
+            ops.append({"op": "update_edges", "map": m})
+            present = {u for u, _ in m} | {c for _, cs in m for c in cs}
         else:
             u = rng.choice(sorted(present)) if rng.random() < 0.85 else rng.randrange(max_label + 1)
             ops.append({"op": "remove", "n": u})
@@ -283,6 +320,45 @@ def mutation_case(rng, kind, max_label=6, steps=10):
         ops.append({"op": "snapshot"})
         ops.append(query_op(rng, sorted(present), max_label + 1, full=True, wmodes=("small",)))
     return {"kind": kind, "ops": ops}
+
+
+def _mapping_of(n, edges, node_order):
+    ch = {u: [] for u in node_order}
+    for u, v in edges:
+        ch[u].append(v)
+    return [[u, ch[u]] for u in node_order]
+
+
+def rewire_case(rng, masks, kind):
+    """Build a DAG, query, then `update_edges` with a re-wired mapping over the same nodes
+    (an edge dropped / reversed / added, keys permuted) and query again; twice."""
+    n = len(masks)
+    edges = edges_of(masks)
+    ops = build_ops(n, edges, rng.choice(["ops", "init", "add_node"]))
+    ops.append(query_op(rng, range(n), n, full=True, wmodes=("small",)))
+    for _ in range(2):
+        edges = list(edges)
+        for _ in range(rng.randint(1, 2)):
+            r = rng.random()
+            if edges and r < 0.4:
+                edges.pop(rng.randrange(len(edges)))
+            elif edges and r < 0.75:
+                i = rng.randrange(len(edges))
+                u, v = edges[i]
+                edges[i] = (v, u)
+            elif n >= 2:
+                u, v = rng.sample(range(n), 2)
+                edges.append((u, v))
+        rng.shuffle(edges)
+        order = list(range(n))
+        rng.shuffle(order)
+        if rng.random() < 0.3 and n > 1:
+            order = order[:-1]  # a node that is not a key survives only if it is somebody's child
+            edges = [e for e in edges if e[0] in order]
+        ops.append({"op": "update_edges", "map": _mapping_of(n, edges, order)})
+        ops.append({"op": "snapshot"})
+        ops.append(query_op(rng, range(n), n, full=True, wmodes=("small",)))
+    return decorate(rng, {"kind": kind, "ops": ops}, range(n + 1), jobcost=False)
 
 
 def corpus():
@@ -330,6 +406,35 @@ def corpus():
     out.append({"kind": "int1", "ops": [{"op": "add_child", "n": 0, "c": 1}, {"op": "remove", "n": 0}, q([], 0)]})
     # falsy start label with several sources (the `if node:` quirk)
     out.append({"kind": "int0", "ops": [{"op": "init", "map": [[3, [0]], [0, [1]], [2, [1]]]}, q(range(4), 4)]})
+    # update_edges: drop an edge and reverse another on a live TaskGraph
+    out.append(
+        {
+            "kind": "task",
+            "ops": [
+                {"op": "init", "map": [[0, [1, 2]], [1, [2]], [2, []]]},
+                q(range(3), 3),
+                {"op": "update_edges", "map": [[2, [1]], [0, [2]], [1, []]]},
+                {"op": "snapshot"},
+                q(range(3), 3),
+            ],
+        }
+    )
+    # runtimes given in mixed units: 2 ms next to 900 us / 3 us (raw numbers order the paths wrongly)
+    out.append(
+        {
+            "kind": "job",
+            "rt": [[0, 1], [1, 2000], [2, 900], [3, 3]],
+            "unit": [[1, "ms"]],
+            "live": [0, 1, 2, 3],
+            "slo": [],
+            "ops": [
+                {"op": "init", "map": [[0, [1, 2]], [1, [3]], [2, [3]]]},
+                q(range(4), 4),
+                {"op": "jobcost", "which": "cpr", "rt": [[0, 1], [1, 2000], [2, 900], [3, 3]], "live": [0, 1, 2, 3], "cost": [[0, 1], [1, 2000], [2, 900], [3, 3]]},
+                {"op": "jobcost", "which": "ct", "rt": [[0, 1], [1, 2000], [2, 900], [3, 3]], "live": [0, 1, 2, 3], "cost": [[0, 1], [1, 2000], [2, 900], [3, 3]]},
+            ],
+        }
+    )
     # equal-weight ties, multiple sources, skip edges
     out.append({"kind": "obj", "ops": [{"op": "init", "map": [[0, [2]], [1, [2]], [2, [3, 4]], [3, [4]], [5, []]]}, q(range(6), 6)]})
     return out
@@ -339,7 +444,7 @@ def shrink_variants(case):
     """Smaller relatives of a case: drop one mutating op at a time."""
     ops = case["ops"]
     for i, op in enumerate(ops):
-        if op["op"] in ("add_node", "add_child", "remove"):
+        if op["op"] in ("add_node", "add_child", "remove", "update_edges"):
             c = dict(case)
             c["ops"] = ops[:i] + ops[i + 1 :]
             yield c
